@@ -79,14 +79,20 @@ def replay_decide(name, inp):
     from valjean.cosette.backends.queue import QueueScheduling
     from valjean.cosette.env import Env
     from valjean.cosette.task import Task, TaskStatus
-    recs = inp.get('tasks') or []
+    recs = (inp or {}).get('tasks') or []
     main = [r for r in recs if r['is_task']]
     if len(main) != 1:
-        return {'reproduced': False, 'note': 'model does not single out the task'}
+        return decide_enumeration(name)
     by_name = {}
     env = Env()
+
+    class Probe(Task):
+        def do(self, env, config):
+            raise NotImplementedError
+
     for r in recs:
-        t = by_name.setdefault(r['name'], Task(r['name']))
+        if r['name'] not in by_name:
+            by_name[r['name']] = Probe(r['name'])
         if r['present']:
             ent = {'status': TaskStatus[r['status']]}
             if r['start'] is not None:
@@ -160,6 +166,31 @@ RERUN_SMALL = ('rerun', {'budget': 600, 'seed': 0})
 
 
 # ---------------------------------------------------------------------------------------
+def decide_enumeration(name):
+    """fallback of replay_decide when the solver's model is not a finite environment: every environment of a task with up to 3 dependencies
+    (each absent / WAITING / PENDING / DONE / FAILED / SKIPPED, hard or soft; clocks 1 < 2 < 3 in both orders) against the same clauses"""
+    import itertools
+    states = (None, 'WAITING', 'PENDING', 'DONE', 'FAILED', 'SKIPPED')
+    own = ('WAITING',) if 'decide_new_state_waiting' in name else ('WAITING', 'DONE', None)
+    for ndeps in (0, 1, 2, 3):
+        for sts in itertools.product(states, repeat=ndeps):
+            for hard in itertools.product((False, True), repeat=ndeps):
+                for mine in own:
+                    for late in ((False,) if mine != 'DONE' else (False, True)):
+                        recs = [{'name': 't', 'is_task': True, 'dep': False, 'hard': False, 'present': mine is not None, 'status': mine or 'WAITING',
+                                 'start': 2.0 if mine == 'DONE' else None, 'end': 2.5 if mine == 'DONE' else None}]
+                        for k in range(ndeps):
+                            recs.append({'name': f'd{k}', 'is_task': False, 'dep': True, 'hard': hard[k], 'present': sts[k] is not None, 'status': sts[k] or 'WAITING',
+                                         'start': 0.5 if sts[k] in ('DONE', 'FAILED') else None,
+                                         'end': (3.0 if late and k == ndeps - 1 else 1.0) if sts[k] in ('DONE', 'FAILED') else None})
+                        out = replay_decide(name, {'tasks': recs})
+                        if out.get('reproduced'):
+                            out['input_found'] = {'tasks': recs}
+                            out['by'] = 'enumeration of small environments (the solver model was not a finite environment)'
+                            return out
+    return {'reproduced': False, 'note': 'no failing environment with up to 3 dependencies'}
+
+
 def unit_decide(tier, pid, which):
     w = _world()
     c = {'decide': sw.c_decide, 'decide_waiting': sw.c_decide_waiting, 'last_end_time': sw.c_last_end_time}[which]()
@@ -259,6 +290,12 @@ def unit_scheduler_init(tier, pid):
         res = verify_function(w, sk.init_contract(given), setup=sk.init_setup(given), extra_check=sk.init_check)
         out.append(prop.discharge(res, tier, pid, lambda m, r: {'note': 'see model text'}, replay_native([SWEEP_SMALL])))
     return {'functions': out}
+
+
+def unit_backend_init(tier, pid):
+    w = sk.make_backend_init_world()
+    res = verify_function(w, sk.backend_init_contract(), setup=sk.backend_init_setup, extra_check=sk.backend_init_check)
+    return {'functions': [prop.discharge(res, tier, pid, lambda m, r: {'note': 'see model text'}, replay_native([('nested', {}), SWEEP_SMALL]))]}
 
 
 def unit_og(tier, pid, which='all'):
@@ -439,6 +476,41 @@ def unit_env_conformance(tier, seed):
             want = (want_r, want_e, {'status': TaskStatus.DONE, 'k': 1})
             if got != want:
                 fails.append({'input': {'entry': repr(st), 'op': op, 'arg': repr(arg)}, 'observed': repr(got), 'expected': repr(want)})
+    # apply is a DEEP merge (sections shared by several tasks, at any depth): sequences of two or three updates against a recursive-merge oracle
+    import copy
+    import itertools
+
+    class LeafToSection(Exception):
+        pass
+
+    def merged(old, upd):
+        for k, v in upd.items():
+            if isinstance(v, dict) and k in old:
+                if not isinstance(old[k], dict):
+                    raise LeafToSection      # a section written over an existing leaf: not claimed (the real method raises TypeError)
+                merged(old[k], v)
+            else:
+                old[k] = v if not isinstance(v, dict) else copy.deepcopy(v)
+        return old
+    pool = [{'x': {'res': {'a': 1}}}, {'x': {'res': {'b': 2}}}, {'shared': {'sec': {'sub': {'a': 1}}}}, {'shared': {'sec': {'sub': {'b': 2}}}},
+            {'shared': {'sec': {'other': 3}}}, {'x': {'res': 7}}, {'x': {'res': {'a': {'deep': [1]}}}}, {'shared': {'flat': 1}}, {}]
+    for seq in itertools.chain(itertools.permutations(range(len(pool)), 2), [(2, 3, 4), (4, 3, 2), (0, 1, 6), (6, 1, 0), (5, 0, 1), (0, 5, 1)]):
+        e = mk({'status': TaskStatus.PENDING})
+        want = {k: copy.deepcopy(dict(v)) for k, v in e.items()}
+        n += 1
+        try:
+            for i in seq:
+                merged(want, copy.deepcopy(pool[i]))
+        except LeafToSection:
+            continue
+        try:
+            for i in seq:
+                e.apply(copy.deepcopy(pool[i]))
+            got = {k: v for k, v in e.items()}
+        except Exception as ex:      # noqa
+            got = 'raised ' + repr(ex)
+        if got != want:
+            fails.append({'input': {'entry': "{'status': PENDING}", 'op': 'apply, in sequence', 'updates': [pool[i] for i in seq]}, 'observed': repr(got), 'expected': repr(want)})
     # atomically: runs the action with the environment, under the lock (re-entrant), returns its result
     e = mk(None)
     n += 1
@@ -452,7 +524,8 @@ def unit_env_conformance(tier, seed):
     if r != 42 or not seen.get('same') or not seen.get('locked'):
         fails.append({'input': {'op': 'atomically'}, 'observed': repr((r, seen)), 'expected': 'action(env) under env.lock, result returned'})
     return {'bounded': [{'name': 'env-methods-vs-abstract-model', 'bound': 'all single-entry states (absent / each status / with clocks / with payload) x every '
-                         'accessor, mutator, apply and clock operation (exhaustive); this is the conformance check of the ASSUMED Env contracts',
+                         'accessor, mutator, apply and clock operation (exhaustive); sequences of 2-3 nested updates (sections shared at depth 2-4, a section replaced by a '
+                         'leaf; a section written over a leaf is not claimed) against a recursive-merge oracle; this is the conformance check of the ASSUMED Env contracts',
                          'evaluations': n, 'distinct': n, 'exhaustive': True, 'failures': fails[:10],
                          'samples': [{'entry': None, 'op': 'get_status', 'expect': 'WAITING inserted'}]}]}
 
